@@ -266,6 +266,26 @@ where T: Encode<()> + for<'b> Decode<'b, ()> + Serialize + DeserializeOwned + Sa
     })
 }
 
+/// Tuples above arity 12 have no `Debug` in std: wrap them, delegating all four codec traits (the arities 13-16 are the
+/// last rows of the per-arity tables on both sides).
+macro_rules! wide_tuple {
+    ($w:ident, ($($t:ty),+), ($($i:tt),+)) => {
+        #[derive(Clone)]
+        struct $w(($($t,)+));
+        impl Debug for $w { fn fmt(&self, f: &mut std::fmt::Formatter<'_>) -> std::fmt::Result { f.write_str("(")?; $( write!(f, "{:?}, ", (self.0).$i)?; )+ f.write_str(")") } }
+        impl<C> Encode<C> for $w { fn encode<W: minicbor::encode::Write>(&self, e: &mut minicbor::Encoder<W>, ctx: &mut C) -> Result<(), minicbor::encode::Error<W::Error>> { self.0.encode(e, ctx) } }
+        impl<'b, C> Decode<'b, C> for $w { fn decode(d: &mut minicbor::Decoder<'b>, ctx: &mut C) -> Result<Self, minicbor::decode::Error> { Ok($w(Decode::decode(d, ctx)?)) } }
+        impl Serialize for $w { fn serialize<S: serde::Serializer>(&self, s: S) -> Result<S::Ok, S::Error> { self.0.serialize(s) } }
+        impl<'de> Deserialize<'de> for $w { fn deserialize<D: serde::Deserializer<'de>>(d: D) -> Result<Self, D::Error> { Ok($w(Deserialize::deserialize(d)?)) } }
+        impl Arb for $w { fn arb(g: &mut Gen) -> Self { $w(( $( <$t as Arb>::arb(g), )+ )) } }
+        impl Same for $w { fn same(&self, o: &Self) -> bool { true $( && Same::same(&(self.0).$i, &(o.0).$i) )+ } }
+    }
+}
+wide_tuple!(Tuple13, (u8, i8, u16, i16, u32, i32, u64, i64, bool, char, f32, String, Option<u8>), (0, 1, 2, 3, 4, 5, 6, 7, 8, 9, 10, 11, 12));
+wide_tuple!(Tuple14, (u8, i8, u16, i16, u32, i32, u64, i64, bool, char, f32, String, Option<u8>, f64), (0, 1, 2, 3, 4, 5, 6, 7, 8, 9, 10, 11, 12, 13));
+wide_tuple!(Tuple15, (u8, i8, u16, i16, u32, i32, u64, i64, bool, char, f32, String, Option<u8>, f64, Vec<u8>), (0, 1, 2, 3, 4, 5, 6, 7, 8, 9, 10, 11, 12, 13, 14));
+wide_tuple!(Tuple16, (u8, i8, u16, i16, u32, i32, u64, i64, bool, char, f32, f64, String, Option<u8>, (), [u8; 2]), (0, 1, 2, 3, 4, 5, 6, 7, 8, 9, 10, 11, 12, 13, 14, 15));
+
 macro_rules! c18_types {
     ($( $t:ty ),* $(,)?) => {
         fn c18_shared(g: &mut Gen, st: &mut Stats) -> CaseResult {
@@ -282,6 +302,8 @@ c18_types!(
     [u8; 0], [u8; 1], [u16; 3], [Option<u16>; 3], [String; 2], [u8; 32], [u16; 23], [u16; 24], [i8; 25], [String; 24], [(u8, bool); 24],
     (u8, u8, u8, u8, u8, u8), (u8, i8, u16, i16, u32, i32, u64, i64, bool, char, String, f64), [[u8; 2]; 3],
     (u8,), (u8, String), (bool, i64, f32), (u64, Option<i8>, char, String), ((u8, u8), [i8; 2], Vec<bool>),
+    (u8, String, bool, i32, Option<u16>), (u8, i8, u16, i16, bool, String, u32), (u64, i64, f32, char, bool, Option<i8>, String, u8), (u8, i8, u16, i16, u32, i32, bool, char, String),
+    (u8, i8, u16, i16, u32, i32, u64, i64, bool, String), (u8, i8, u16, i16, u32, i32, u64, i64, bool, char, String), Tuple13, Tuple14, Tuple15, Tuple16,
     std::collections::BTreeMap<u8, u8>, std::collections::BTreeMap<String, Vec<i64>>, std::collections::BTreeMap<i32, Option<String>>,
     std::collections::VecDeque<i16>, std::collections::LinkedList<u32>, std::collections::BTreeSet<i64>,
     Box<u64>, Box<Vec<u16>>, std::num::Wrapping<u32>, std::num::NonZeroU8, std::num::NonZeroI64, std::marker::PhantomData<u8>,
